@@ -347,7 +347,8 @@ pub fn eval_dependencies(
                                     others *= q_to_f64(&st[id2].0).abs() + st[id2].1;
                                 }
                             }
-                            m += 2.0 * others * im;
+                            // (the floor keeps the margin non-zero when the product underflows)
+                            m += 2.0 * others * im + f64::MIN_POSITIVE;
                         }
                     }
                 }
